@@ -78,8 +78,16 @@ def findStar : Nat → Nat → Bytes → Bytes → Outcome Bytes
       | .crash => .crash
       | .outOfFuel => .outOfFuel
 
-/-- skip a comment; the stream is at the `*` of `/*` (the `/` has been read, the `*` only peeked) -/
-def skipComment (fuel : Nat) (s : Bytes) : Outcome Bytes := findStar fuel 0 s s
+/-- `sectionReader::skipComment` (repaired shape): raw text up to and including the first `*/`; `p` = the previous byte -/
+def rawLoop : Char → Bytes → Outcome Bytes
+  | _, [] => .fail
+  | p, c :: r => if p == '*' && c == '/' then .ok r else rawLoop c r
+
+/-- skip a comment; the stream is at the `*` of `/*` (the `/` has been read, the `*` only peeked).  Regenerated shape: the comment is
+    skipped as raw text (`commentsRaw`), or — old code — with the general search `findNormalString("*/")`, which interprets
+    apostrophes and `/*` inside the comment -/
+def skipComment (fuel : Nat) (s : Bytes) : Outcome Bytes :=
+  if commentsRaw then (match s with | _ :: r => rawLoop '\x00' r | [] => .fail) else findStar fuel 0 s s
 
 /-- `sectionReader::skipWSandComments`: white space, then any number of comments -/
 def skipWSC : Nat → Bytes → Outcome Bytes
